@@ -97,9 +97,16 @@ func (x *Exec) checkEnsures(st *State, fr *Frame, res Val) {
 		if x.assumedOnly(en) {
 			continue
 		}
-		t := x.evalBool(env, en.Expr, en)
-		name := fmt.Sprintf("%s/ensures#%d", x.curFunc, en.Ord)
-		x.oblige(st, name, "postcondition", en.Tags, t, fr.fn.Pos(), "postcondition: "+en.Src)
+		// split top-level conjunctions (also under an implies) into separate, smaller obligations
+		parts := splitConj(en.Expr)
+		for pi, pe := range parts {
+			t := x.evalBool(env, pe, en)
+			name := fmt.Sprintf("%s/ensures#%d", x.curFunc, en.Ord)
+			if len(parts) > 1 {
+				name = fmt.Sprintf("%s.%d", name, pi)
+			}
+			x.oblige(st, name, "postcondition", en.Tags, t, fr.fn.Pos(), "postcondition: "+exprStr(pe))
+		}
 	}
 	x.checkFrame(st, fr, c, "return")
 }
@@ -173,6 +180,27 @@ func (x *Exec) checkPanicExit(st *State, fr *Frame) {
 	name := fmt.Sprintf("%s/panics@%s", x.curFunc, st.panicSite)
 	x.oblige(st, name, "exceptional-postcondition", tags, tOr(alts...), fr.fn.Pos(), "escaping panic ("+st.panicWhy+") is allowed by a panics clause and satisfies it")
 	x.checkFrame(st, fr, c, "panic")
+}
+
+// splitConj splits a && b and implies(c, a && b) into conjuncts.
+func splitConj(e ast.Expr) []ast.Expr {
+	switch n := e.(type) {
+	case *ast.ParenExpr:
+		return splitConj(n.X)
+	case *ast.BinaryExpr:
+		if n.Op == token.LAND {
+			return append(splitConj(n.X), splitConj(n.Y)...)
+		}
+	case *ast.CallExpr:
+		if id, ok := n.Fun.(*ast.Ident); ok && id.Name == "implies" && len(n.Args) == 2 {
+			var out []ast.Expr
+			for _, p := range splitConj(n.Args[1]) {
+				out = append(out, &ast.CallExpr{Fun: n.Fun, Args: []ast.Expr{n.Args[0], p}})
+			}
+			return out
+		}
+	}
+	return []ast.Expr{e}
 }
 
 func (x *Exec) assumedOnly(cl *Clause) bool {
@@ -681,6 +709,18 @@ func (x *Exec) evalCall(env *specEnv, n *ast.CallExpr, hint types.Type, cl *Clau
 			return x.retag(v, tn.Type())
 		}
 	}
+	if d, ok := x.specs.Defines[fname]; ok {
+		need(len(d.Params))
+		sub := *env
+		sub.vars = map[string]Val{}
+		sub.frame = nil
+		sub.bound = env.bound
+		for k, pn := range d.Params {
+			sub.vars[pn] = x.eval(env, n.Args[k], nil, cl)
+		}
+		sub.oldVars = sub.vars
+		return x.eval(&sub, d.Body, hint, cl)
+	}
 	switch fname {
 	case "old":
 		need(1)
@@ -800,6 +840,12 @@ func (x *Exec) evalCall(env *specEnv, n *ast.CallExpr, hint types.Type, cl *Clau
 		f := arg(0, types.Typ[types.Float64])
 		b := st.fresh("bits", sBV(64), types.Typ[types.Uint64])
 		st.assume(tSame(Term{S: "((_ to_fp 11 53) " + b.S + ")", Sort: sF64}, f))
+		return b
+	case "f32bits":
+		need(1)
+		f := arg(0, types.Typ[types.Float32])
+		b := st.fresh("bits", sBV(32), types.Typ[types.Uint32])
+		st.assume(tSame(Term{S: "((_ to_fp 8 24) " + b.S + ")", Sort: sF32}, f))
 		return b
 	case "f64frombits":
 		need(1)
